@@ -16,13 +16,29 @@ ROOT = os.path.dirname(os.path.dirname(os.path.abspath(__file__)))
 sys.path.insert(0, ROOT)
 
 
-def _gen_worker(key):
+def _gen_worker(key, in_child=False):
     """Generate the obligations of one function / lemma (runs in a worker; returns picklable data)."""
     from pyvc import driver, solve
     from pyvc.state import OutOfSubset, ContractDrift
     t0 = time.time()
     try:
         reg = driver.load_contracts()
+        from pyvc import vals
+        if reg.contracts[key].view == "string" and not vals.STRING_MODE:
+            # names as strings: the sort 'Node' is fixed at import time, so this key is generated in a child
+            # interpreter started with PYVC_NODE=str (same contracts, same engine)
+            import pickle, subprocess, tempfile
+            with tempfile.NamedTemporaryFile(suffix=".pkl", dir=os.environ.get("PYVC_TMP"), delete=False) as f:
+                out = f.name
+            try:
+                p = subprocess.run([sys.executable, "-m", "pyvc.cli", "gen-one", key, "--out", out], cwd=ROOT,
+                                   env=dict(os.environ, PYVC_NODE="str"), capture_output=True, text=True, timeout=900)
+                if p.returncode != 0 or not os.path.getsize(out):
+                    return dict(key=key, status="crash", error=f"string-view generator failed: {p.stderr[-2000:]}")
+                with open(out, "rb") as fh:
+                    return pickle.load(fh)
+            finally:
+                os.unlink(out)
         obls, info = driver.generate(reg, key)
         jobs = []
         for o in obls:
@@ -122,6 +138,7 @@ def main(argv=None):
     ap.add_argument("arg", nargs="?")
     ap.add_argument("--tier", default=os.environ.get("VERIF_TIER", "quick"))
     ap.add_argument("--replay")
+    ap.add_argument("--out")
     a = ap.parse_args(argv)
     seed = int(os.environ.get("VERIF_SEED", "0") or 0)
     try:
@@ -131,6 +148,12 @@ def main(argv=None):
             reg = driver.load_contracts()
             for pid in sorted(props.PROPS):
                 print(pid, len(props.keys_for(reg, pid)), "functions/lemmas")
+            return 0
+        if a.what == "gen-one":
+            import pickle
+            g = _gen_worker(a.arg, in_child=True)
+            with open(a.out, "wb") as fh:
+                pickle.dump(g, fh)
             return 0
         if a.what == "replay":
             from pyvc import replay
